@@ -190,7 +190,9 @@ class Reg:
 def rand_opts(rng, p_some=0.5):
     if rng.random() > p_some:
         return "-"
-    return rng.choice(["n", "t", "t", "f", "f"])
+    o = rng.choice(["n", "t", "t", "f", "f"])
+    # `threads = []` (present but empty) beside it, now and then
+    return o + "e" if rng.random() < 0.2 else o
 
 
 def rand_const(rng):
